@@ -6,6 +6,24 @@ import FontcProofs.NamesAssoc
 
 namespace Fontc.Names
 
+/-! ### `maxId` -/
+
+theorem foldl_max_ge (t : Table) (m : Nat) : m ≤ t.foldl (fun m p => max m p.1.id) m ∧
+    ∀ p ∈ t, p.1.id ≤ t.foldl (fun m p => max m p.1.id) m := by
+  induction t generalizing m with
+  | nil => simp
+  | cons q t ih =>
+    obtain ⟨h1, h2⟩ := ih (max m q.1.id)
+    refine ⟨by simp only [List.foldl_cons]; omega, ?_⟩
+    intro p hp
+    simp only [List.foldl_cons]
+    rcases List.mem_cons.mp hp with e | hp
+    · subst e; omega
+    · exact h2 p hp
+
+theorem le_maxId {t : Table} {p : NameKey × Str} (h : p ∈ t) : p.1.id ≤ maxId t := (foldl_max_ge t 255).2 p h
+theorem maxId_ge (t : Table) : 255 ≤ maxId t := (foldl_max_ge t 255).1
+
 /-! ### the allocation is a fold of `register` over a request list -/
 
 /-- the strings one instance asks to register (static_metadata.rs:431-449) -/
@@ -28,7 +46,7 @@ theorem foldl_regInst (order : List NameKey) (names : Table) (l : List Inst) (st
   | cons ni t ih => simp [List.foldl_cons, List.flatMap_cons, List.foldl_append, regInst_eq, ih]
 
 theorem allocState_eq (order : List NameKey) (x : Input) :
-    allocState order x = (requests order x).foldl register ⟨initReusable order x.names, 255⟩ := by
+    allocState order x = (requests order x).foldl register ⟨initReusable order x.names, maxId x.names⟩ := by
   simp [allocState, requests, List.foldl_append, foldl_regInst]
 
 theorem reqOf_length (order : List NameKey) (names : Table) (ni : Inst) : (reqOf order names ni).length ≤ 2 := by
@@ -234,24 +252,22 @@ theorem idGt_foldl_register (reqs : List Str) (st : St) (hlo : 255 ≤ st.gen) (
 
 theorem allocState_idGt (order : List NameKey) (x : Input) : ∀ p ∈ (allocState order x).reusable, 255 < p.2.id := by
   rw [allocState_eq]
-  exact idGt_foldl_register _ _ (Nat.le_refl _) (fun p hp => (mem_initReusable p hp).2)
+  exact idGt_foldl_register _ _ (maxId_ge _) (fun p hp => (mem_initReusable p hp).2)
 
 theorem allocState_nodup (order : List NameKey) (x : Input) : (akeys (allocState order x).reusable).Nodup := by
   rw [allocState_eq]
   exact akeys_foldl_register_nodup _ _ (akeys_initReusable_nodup _ _)
 
-/-! ### the invariant under `Clear`: no two strings share a key -/
-
-/-- source records with a font-specific id lie above `B` -/
-def Clear (names : Table) (B : Nat) : Prop := ∀ k v, alookup k names = some v → k.id ≤ 255 ∨ B < k.id
+/-! ### the invariant: no two strings share a key (allocation starts after the largest source id) -/
 
 structure Inv (names : Table) (st : St) : Prop where
   idGt : ∀ p ∈ st.reusable, 255 < p.2.id
-  kind : ∀ p ∈ st.reusable, alookup p.2 names = some p.1 ∨ (p.2 = NameKey.new p.2.id p.1 ∧ p.2.id ≤ st.gen)
+  kind : ∀ p ∈ st.reusable, alookup p.2 names = some p.1 ∨
+    (p.2 = NameKey.new p.2.id p.1 ∧ maxId names < p.2.id ∧ p.2.id ≤ st.gen)
   inj : ∀ p ∈ st.reusable, ∀ q ∈ st.reusable, p.2 = q.2 → p.1 = q.1
-  genLo : 255 ≤ st.gen
+  genLo : maxId names ≤ st.gen
 
-theorem inv_init (order : List NameKey) (names : Table) : Inv names ⟨initReusable order names, 255⟩ where
+theorem inv_init (order : List NameKey) (names : Table) : Inv names ⟨initReusable order names, maxId names⟩ where
   idGt := fun p hp => (mem_initReusable p hp).2
   kind := fun p hp => Or.inl (mem_initReusable p hp).1
   inj := by
@@ -262,8 +278,7 @@ theorem inv_init (order : List NameKey) (names : Table) : Inv names ⟨initReusa
     exact (Option.some.inj h1).symm
   genLo := Nat.le_refl _
 
-theorem inv_register {names : Table} {B : Nat} (hc : Clear names B) {st : St} (n : Str) (hi : Inv names st)
-    (hB : st.gen + 1 ≤ B) : Inv names (register st n) := by
+theorem inv_register {names : Table} {st : St} (n : Str) (hi : Inv names st) : Inv names (register st n) := by
   cases hn : alookup n st.reusable with
   | some k => simpa [register_of_some hn] using hi
   | none =>
@@ -272,22 +287,23 @@ theorem inv_register {names : Table} {B : Nat} (hc : Clear names B) {st : St} (n
       simp only [register, hn] at hp
       exact mem_ainsert hp
     have hgen : (register st n).gen = st.gen + 1 := by simp [register, hn]
+    have h255 : 255 ≤ st.gen := Nat.le_trans (maxId_ge names) hi.genLo
     -- an old entry never has the new key
     have hold : ∀ q ∈ st.reusable, q.2 ≠ NameKey.new (st.gen + 1) n := by
       intro q hq e
-      rcases hi.kind q hq with h | ⟨_, h⟩
+      rcases hi.kind q hq with h | ⟨_, _, h⟩
       · rw [e] at h
-        rcases hc _ _ h with h' | h'
-        · simp [NameKey.new] at h'; have := hi.genLo; omega
-        · simp [NameKey.new] at h'; omega
+        have := le_maxId (mem_of_alookup h)
+        have := hi.genLo
+        simp [NameKey.new] at *; omega
       · rw [e] at h; simp [NameKey.new] at h; omega
-    refine ⟨idGt_register n hi.genLo hi.idGt, ?_, ?_, by rw [hgen]; have := hi.genLo; omega⟩
+    refine ⟨idGt_register n h255 hi.idGt, ?_, ?_, by rw [hgen]; have := hi.genLo; omega⟩
     · intro p hp
       rcases hmem p hp with e | hp
-      · right; rw [e, hgen]; simp [NameKey.new]
-      · rcases hi.kind p hp with h | ⟨h1, h2⟩
+      · right; rw [e, hgen]; have := hi.genLo; simp [NameKey.new]; omega
+      · rcases hi.kind p hp with h | ⟨h1, h2, h3⟩
         · exact Or.inl h
-        · right; rw [hgen]; exact ⟨h1, by omega⟩
+        · right; rw [hgen]; exact ⟨h1, h2, by omega⟩
     · intro p hp q hq e
       rcases hmem p hp with ep | hp <;> rcases hmem q hq with eq | hq
       · rw [ep, eq]
@@ -295,15 +311,15 @@ theorem inv_register {names : Table} {B : Nat} (hc : Clear names B) {st : St} (n
       · rw [eq] at e; exact absurd e (hold p hp)
       · exact hi.inj p hp q hq e
 
-theorem inv_foldl_register {names : Table} {B : Nat} (hc : Clear names B) (reqs : List Str) (st : St)
-    (hi : Inv names st) (hB : st.gen + reqs.length ≤ B) :
-    Inv names (reqs.foldl register st) ∧ (reqs.foldl register st).gen ≤ B := by
+theorem inv_foldl_register {names : Table} (reqs : List Str) (st : St) (hi : Inv names st) :
+    Inv names (reqs.foldl register st) := by
   induction reqs generalizing st with
-  | nil => exact ⟨hi, by simpa using hB⟩
-  | cons n t ih =>
-    simp only [List.length_cons] at hB
-    have hg := (register_gen_le st n).2
-    exact ih _ (inv_register hc n hi (by omega)) (by omega)
+  | nil => exact hi
+  | cons n t ih => exact ih _ (inv_register n hi)
+
+theorem allocState_inv (order : List NameKey) (x : Input) : Inv x.names (allocState order x) := by
+  rw [allocState_eq]
+  exact inv_foldl_register _ _ (inv_init order x.names)
 
 /-! ### `extend` -/
 
@@ -437,58 +453,124 @@ theorem sortAsc_head_le (l : List Nat) : ∀ h ∈ (sortAsc l).head?, ∀ x ∈ 
 theorem mem_reverseIds {t : Table} {s : Str} {id : Nat} : id ∈ reverseIds t s ↔ ∃ k, (k, s) ∈ t ∧ k.id = id := by
   simp [reverseIds, mem_sortAsc, mem_idsOf]
 
-/-- with reserved ids allowed, the lookup returns the smallest id carrying the string -/
-theorem reusableNameId_true_min {t : Table} {s : Str} {id : Nat} (h : reusableNameId t s true = some id)
-    {k : NameKey} (hk : (k, s) ∈ t) : id ≤ k.id := by
-  unfold reusableNameId at h
-  simp only [Bool.true_or] at h
-  have hh : (reverseIds t s).head? = some id := by
-    cases hl : reverseIds t s with
-    | nil => simp [hl] at h
-    | cons a l => simp [hl] at h; simp [h]
-  exact sortAsc_head_le (idsOf t s) id hh k.id (mem_reverseIds.mpr ⟨k, hk, rfl⟩)
+/-- the head of an ascending sort is determined by the set of members -/
+theorem head_sortAsc_unique {l : List Nat} {m : Nat} (hm : m ∈ l) (hle : ∀ x ∈ l, m ≤ x) : (sortAsc l).head? = some m := by
+  cases h : sortAsc l with
+  | nil =>
+    have : m ∈ sortAsc l := mem_sortAsc.mpr hm
+    rw [h] at this; simp at this
+  | cons a t =>
+    have ha : a ∈ l := mem_sortAsc.mp (by rw [h]; simp)
+    have h1 : a ≤ m := sortAsc_head_le l a (by rw [h]; rfl) m (mem_sortAsc.mpr hm)
+    have h2 := hle a ha
+    simp; omega
 
-/-- a record that passes the filter guarantees a result, and any result is the id of a record carrying `s` -/
-theorem reusableNameId_of_mem {t : Table} {s : Str} {allow : Bool} {k : NameKey} (hk : (k, s) ∈ t)
-    (hp : (allow || decide (256 ≤ k.id)) = true) :
-    ∃ id k', reusableNameId t s allow = some id ∧ (k', s) ∈ t ∧ k'.id = id := by
-  unfold reusableNameId
-  cases hf : (reverseIds t s).find? (fun id => allow || decide (256 ≤ id)) with
+theorem head_sortAsc_some {l : List Nat} {m : Nat} (h : (sortAsc l).head? = some m) : m ∈ l ∧ ∀ x ∈ l, m ≤ x := by
+  refine ⟨mem_sortAsc.mp ?_, fun x hx => sortAsc_head_le l m h x (mem_sortAsc.mpr hx)⟩
+  cases hs : sortAsc l with
+  | nil => rw [hs] at h; simp at h
+  | cons a t => rw [hs] at h; simp at h; subst h; simp
+
+theorem head_sortAsc_congr {l₁ l₂ : List Nat} (h : ∀ x, x ∈ l₁ ↔ x ∈ l₂) : (sortAsc l₁).head? = (sortAsc l₂).head? := by
+  cases h₁ : (sortAsc l₁).head? with
+  | some m =>
+    obtain ⟨hm, hle⟩ := head_sortAsc_some h₁
+    exact (head_sortAsc_unique ((h m).mp hm) (fun x hx => hle x ((h x).mpr hx))).symm
   | none =>
-    rw [List.find?_eq_none] at hf
-    have := hf k.id (mem_reverseIds.mpr ⟨k, hk, rfl⟩)
-    simp [hp] at this
-  | some id =>
-    obtain ⟨k', hk', hid⟩ := mem_reverseIds.mp (List.mem_of_find?_eq_some hf)
-    exact ⟨id, k', rfl, hk', hid⟩
+    cases h₂ : (sortAsc l₂).head? with
+    | none => rfl
+    | some m =>
+      obtain ⟨hm, hle⟩ := head_sortAsc_some h₂
+      rw [head_sortAsc_unique ((h m).mpr hm) (fun x hx => hle x ((h x).mp hx))] at h₁
+      cases h₁
+
+/-- a record with a font-specific id guarantees a result, and any result is the id of a record carrying `s` -/
+theorem reusableNameId_of_mem {t : Table} {s : Str} {allow : Bool} {k : NameKey} (hk : (k, s) ∈ t)
+    (hp : 256 ≤ k.id) : ∃ id k', reusableNameId t s allow = some id ∧ (k', s) ∈ t ∧ k'.id = id := by
+  unfold reusableNameId
+  split
+  · next id hid =>
+    have hh : (reverseIds t s).head? = some id := by
+      cases hd : (reverseIds t s).head? with
+      | none => simp [hd] at hid
+      | some a => simp [hd, Option.filter] at hid; simp [hid.2]
+    have : id ∈ reverseIds t s := by
+      cases hl : reverseIds t s with
+      | nil => simp [hl] at hh
+      | cons a l => simp [hl] at hh; simp [hh]
+    obtain ⟨k', hk', e⟩ := mem_reverseIds.mp this
+    exact ⟨id, k', rfl, hk', e⟩
+  · cases hf : (reverseIds t s).find? (fun id => decide (256 ≤ id)) with
+    | none =>
+      rw [List.find?_eq_none] at hf
+      have := hf k.id (mem_reverseIds.mpr ⟨k, hk, rfl⟩)
+      simp at this; omega
+    | some id =>
+      obtain ⟨k', hk', hid⟩ := mem_reverseIds.mp (List.mem_of_find?_eq_some hf)
+      exact ⟨id, k', rfl, hk', hid⟩
 
 theorem reusableNameId_some {t : Table} {s : Str} {allow : Bool} {id : Nat} (h : reusableNameId t s allow = some id) :
-    (∃ k, (k, s) ∈ t ∧ k.id = id) ∧ (allow = true ∨ 256 ≤ id) := by
+    (∃ k, (k, s) ∈ t ∧ k.id = id) ∧ (256 ≤ id ∨ (allow = true ∧ isSub id = true)) := by
   unfold reusableNameId at h
-  refine ⟨mem_reverseIds.mp (List.mem_of_find?_eq_some h), ?_⟩
-  have := List.find?_some h
-  simpa using this
+  split at h
+  · next id' hid =>
+    cases h
+    cases hd : (reverseIds t s).head? with
+    | none => simp [hd] at hid
+    | some a =>
+      simp [hd, Option.filter] at hid
+      obtain ⟨⟨h1, h2⟩, h3⟩ := hid
+      subst h3
+      have : a ∈ reverseIds t s := by
+        cases hl : reverseIds t s with
+        | nil => simp [hl] at hd
+        | cons b l => simp [hl] at hd; simp [hd]
+      exact ⟨mem_reverseIds.mp this, Or.inr ⟨h1, h2⟩⟩
+  · refine ⟨mem_reverseIds.mp (List.mem_of_find?_eq_some h), Or.inl ?_⟩
+    have := List.find?_some h
+    simpa using this
+
+/-- when the smallest id carrying the string is 2 or 17 and the caller allows it, that id is returned -/
+theorem reusableNameId_of_head_sub {t : Table} {s : Str} {m : Nat} (hh : (reverseIds t s).head? = some m)
+    (hs : isSub m = true) : reusableNameId t s true = some m := by
+  unfold reusableNameId
+  simp [hh, Option.filter, hs]
 
 theorem statAxisId_eq (t : Table) (l : Str) : statAxisId t l = reusableNameId t l false := by
-  simp [statAxisId, reusableNameId]
+  simp [statAxisId, reusableNameId, Option.filter]
+  cases (reverseIds t l).head? <;> simp
 
-/-! ### `firstMatch` -/
+/-! ### `smallestMatch` -/
 
-theorem firstMatch_some {order : List NameKey} {names : Table} {s : Str} {id : Nat}
-    (h : firstMatch order names s = some id) : ∃ k ∈ order, alookup k names = some s ∧ k.id = id := by
-  unfold firstMatch at h
-  obtain ⟨k, hk, hf⟩ := List.exists_of_findSome?_eq_some h
-  refine ⟨k, hk, ?_⟩
-  split at hf
-  · next hs => exact ⟨hs, by simpa using hf⟩
-  · cases hf
+theorem mem_matchIds {order : List NameKey} {names : Table} {s : Str} {m : Nat} :
+    m ∈ (order.filterMap fun k => if alookup k names = some s then some k.id else none) ↔
+      ∃ k ∈ order, alookup k names = some s ∧ k.id = m := by
+  simp only [List.mem_filterMap]
+  constructor
+  · rintro ⟨k, hk, h⟩
+    split at h
+    · next hs => exact ⟨k, hk, hs, by simpa using h⟩
+    · cases h
+  · rintro ⟨k, hk, hs, e⟩
+    exact ⟨k, hk, by simp [hs, e]⟩
 
-theorem firstMatch_none {order : List NameKey} {names : Table} {s : Str}
-    (h : firstMatch order names s = none) : ∀ k ∈ order, alookup k names ≠ some s := by
-  unfold firstMatch at h
-  rw [List.findSome?_eq_none_iff] at h
-  intro k hk hs
-  have := h k hk
-  simp [hs] at this
+theorem smallestMatch_some {order : List NameKey} {names : Table} {s : Str} {m : Nat}
+    (h : smallestMatch order names s = some m) :
+    (∃ k ∈ order, alookup k names = some s ∧ k.id = m) ∧ ∀ k ∈ order, alookup k names = some s → m ≤ k.id := by
+  obtain ⟨hm, hle⟩ := head_sortAsc_some h
+  exact ⟨mem_matchIds.mp hm, fun k hk hs => hle k.id (mem_matchIds.mpr ⟨k, hk, hs, rfl⟩)⟩
+
+theorem smallestMatch_perm {names : Table} {o₁ o₂ : List NameKey} (hp : o₁.Perm o₂) (s : Str) :
+    smallestMatch o₁ names s = smallestMatch o₂ names s := by
+  apply head_sortAsc_congr
+  intro x
+  rw [mem_matchIds, mem_matchIds]
+  constructor
+  · rintro ⟨k, hk, h⟩; exact ⟨k, hp.mem_iff.mp hk, h⟩
+  · rintro ⟨k, hk, h⟩; exact ⟨k, hp.mem_iff.mpr hk, h⟩
+
+theorem reuseSubfamily_perm {names : Table} {o₁ o₂ : List NameKey} (hp : o₁.Perm o₂) (ni : Inst) :
+    reuseSubfamily o₁ names ni = reuseSubfamily o₂ names ni := by
+  unfold reuseSubfamily; rw [smallestMatch_perm hp]
 
 end Fontc.Names
